@@ -224,6 +224,7 @@ func classifyOutput(r *vf.Run, caseID, path string, ps []probe, rows []oracle.Ro
 		}
 		return m
 	}
+	verdict := ""
 	for _, mode := range ix.OpenModes {
 		ch := make(chan openRes, 1)
 		go func() {
@@ -248,11 +249,16 @@ func classifyOutput(r *vf.Run, caseID, path string, ps []probe, rows []oracle.Ro
 			return "panic"
 		}
 		if o.err != nil {
-			if mode == ix.OpenOnDemand {
-				return "rejected"
+			// rejected with this option set: the verdict is that of the first option set, but the others are still tried
+			// (an open with preloading walks other code; it must not panic or hang on this file either, and if it accepts
+			// the file its answers must be right)
+			if verdict == "" {
+				verdict = "rejected"
 			}
-			// accepted on demand but rejected preloaded: still no wrong answers; keep the first verdict
 			continue
+		}
+		if verdict == "" {
+			verdict = "accepted-complete"
 		}
 		var d string
 		panicked, msg, _ := vf.Try(func() {
@@ -272,7 +278,7 @@ func classifyOutput(r *vf.Run, caseID, path string, ps []probe, rows []oracle.Ro
 			return "wrong"
 		}
 	}
-	return "accepted-complete"
+	return verdict
 }
 
 var hookMu sync.Mutex // the verification hook is process-global
